@@ -30,7 +30,8 @@ type world struct {
 	calls    []string
 	recovers int
 	raised   int // panics actually raised by user code
-	gate     func(key string) // optional scheduling hook (C06/C13)
+	onCall   func(n int) // called at the n-th resolver call (cancellation points)
+	gated    bool // resolver calls are schedule gates (C06/C13: completion orders are replayed natively)
 }
 
 var theWorld *world
@@ -236,12 +237,16 @@ func (w *world) Guard(k int, pid, field string) ref.Kind {
 }
 
 func (w *world) called(key string) {
+	if w.gated {
+		zzsym.Gate(key)
+	}
 	w.mu.Lock()
 	w.calls = append(w.calls, key)
-	g := w.gate
+	n := len(w.calls)
+	hook := w.onCall
 	w.mu.Unlock()
-	if g != nil {
-		g(key)
+	if hook != nil {
+		hook(n)
 	}
 }
 
@@ -511,6 +516,12 @@ func newES(w *world) graphql.ExecutableSchema {
 // runOp executes op of doc on the generated executor with the real
 // executor.DispatchOperation around it; it drains the response handler.
 func runOp(w *world, doc *ast.QueryDocument, op *ast.OperationDefinition, vars map[string]any) runResult {
+	return runOpCtx(context.Background(), -1, w, doc, op, vars)
+}
+
+// runOpCtx: like runOp under a caller-supplied context, taking at most
+// maxPayloads responses (-1: drain until nil).
+func runOpCtx(parent context.Context, maxPayloads int, w *world, doc *ast.QueryDocument, op *ast.OperationDefinition, vars map[string]any) runResult {
 	es := newES(w)
 	ex := executor.New(es)
 	ex.SetRecoverFunc(func(ctx context.Context, err any) error {
@@ -525,10 +536,13 @@ func runOp(w *world, doc *ast.QueryDocument, op *ast.OperationDefinition, vars m
 		ResolverMiddleware:     func(ctx context.Context, next graphql.Resolver) (any, error) { return next(ctx) },
 		RootResolverMiddleware: func(ctx context.Context, next graphql.RootResolver) graphql.Marshaler { return next(ctx) },
 	}
-	ctx := graphql.StartOperationTrace(context.Background())
+	ctx := graphql.StartOperationTrace(parent)
 	rh, ctx2 := ex.DispatchOperation(ctx, opCtx)
 	var res runResult
 	for {
+		if maxPayloads >= 0 && len(res.resps) >= maxPayloads {
+			break
+		}
 		resp := rh(ctx2)
 		if resp == nil {
 			break
